@@ -14,6 +14,7 @@ structure Inst where
   counter : Nat := 0
   brk : Nat := 16
   stored : Nat := 0
+  tok : Nat := 1          -- app_pointer_map::counter of this sandbox object (survives destroy/create)
 deriving Inhabited
 
 def region (i : Nat) : Region := ⟨16, 0x6a0000000000 + i * 0x400030000⟩
@@ -61,6 +62,11 @@ def doOp (vsbx : Bool) (w : W) (t : Nat) (op : Char) (li : Nat) : W × String :=
       -- the function-pointer load finds the owning sandbox from the cell's own address
       let (w2, o) := step region w1 t (.find i off)
       (w2, if o == some (i + 1) then "f1" else "f0")
+  | 'a' =>
+      if !s.created then (w, "-") else
+      -- register, look up, release: the table is empty again, the per-object counter has advanced
+      let (w1, k) := doLocal w t i fun s => ({ s with tok := s.tok + 1 }, s.tok)
+      (w1, s!"a{k}")
   | 'i' =>
       if !s.created then (w, "-") else
       let (w1, c) := doLocal w t i fun s => ({ s with counter := s.counter + 1 }, s.counter + 1)
